@@ -273,7 +273,7 @@ PPL::MIP_Problem::is_satisfiable() const {
         return x.is_lp_satisfiable();
       }
       // MIP case.
-      {
+      try {
         // Temporarily relax the MIP into an LP problem.
         RAII_Temporary_Real_Relaxation relaxed(x);
         Generator p = point();
@@ -293,6 +293,13 @@ PPL::MIP_Problem::is_satisfiable() const {
           x.status = UNSATISFIABLE;
         }
       } // `relaxed' destroyed here: relaxation automatically reset.
+      catch (...) {
+        // The status and the cached point may be those of the relaxation.
+        if (x.status != UNSATISFIABLE) {
+          x.status = PARTIALLY_SATISFIABLE;
+        }
+        throw;
+      }
       return (x.status == SATISFIABLE);
     }
   }
@@ -335,7 +342,7 @@ PPL::MIP_Problem::solve() const{
       // MIP case.
       MIP_Problem_Status return_value;
       Generator g = point();
-      {
+      try {
         // Temporarily relax the MIP into an LP problem.
         RAII_Temporary_Real_Relaxation relaxed(x);
         if (relaxed.lp.is_lp_satisfiable()) {
@@ -355,6 +362,13 @@ PPL::MIP_Problem::solve() const{
                                  incumbent_solution, g,
                                  lp_copy, relaxed.i_vars);
       } // `relaxed' destroyed here: relaxation automatically reset.
+      catch (...) {
+        // The status and the cached point may be those of the relaxation.
+        if (x.status != UNSATISFIABLE) {
+          x.status = PARTIALLY_SATISFIABLE;
+        }
+        throw;
+      }
 
       switch (return_value) {
       case UNFEASIBLE_MIP_PROBLEM:
@@ -2008,19 +2022,41 @@ PPL::MIP_Problem::is_lp_satisfiable() const {
       MIP_Problem& x = const_cast<MIP_Problem&>(*this);
       // This code tries to handle the case that happens if the tableau is
       // empty, so it must be initialized.
-      if (tableau.num_columns() == 0) {
-        // Add two columns, the first that handles the inhomogeneous term and
-        // the second that represent the `sign'.
-        x.tableau.add_zero_columns(2);
-        // Sync `mapping' for the inhomogeneous term.
-        x.mapping.push_back(std::make_pair(0, 0));
-        // The internal data structures are ready, so prepare for more
-        // assertion to be checked.
-        x.initialized = true;
-      }
+      // The cached point of a problem with no processed constraint.
+      Generator origin = point();
+      try {
+        if (tableau.num_columns() == 0) {
+          // Add two columns, the first that handles the inhomogeneous term
+          // and the second that represent the `sign'.
+          x.tableau.add_zero_columns(2);
+          // Sync `mapping' for the inhomogeneous term.
+          x.mapping.push_back(std::make_pair(0, 0));
+          // The internal data structures are ready, so prepare for more
+          // assertion to be checked.
+          x.initialized = true;
+        }
 
-      // Apply incrementality to the pending constraint system.
-      x.process_pending_constraints();
+        // Apply incrementality to the pending constraint system.
+        x.process_pending_constraints();
+      }
+      catch (...) {
+        // The tableau, the base, the mapping and the cost function are
+        // updated in place and are now out of sync with the bookkeeping
+        // of the pending constraints (memory exhaustion, abandoned
+        // computation): forget them, so that all the input constraints
+        // are pending again.
+        x.tableau.clear();
+        working_cost_type empty_cost(0);
+        swap(x.working_cost, empty_cost);
+        x.mapping.clear();
+        x.base.clear();
+        x.internal_space_dim = 0;
+        x.first_pending_constraint = 0;
+        x.initialized = false;
+        x.status = PARTIALLY_SATISFIABLE;
+        swap(x.last_generator, origin);
+        throw;
+      }
       // Update `first_pending_constraint': no more pending.
       x.first_pending_constraint = input_cs.size();
       // Update also `internal_space_dim'.
